@@ -19,7 +19,7 @@ import anyio
 
 from ..explore import execute, new_summary, run_main_asyncio
 
-SHAPES = ("one", "two-same", "two-diff", "sub-adds", "sub-inherits", "sub-overrides", "slots", "value-equal", "three")
+SHAPES = ("one", "two-same", "two-diff", "sub-adds", "sub-inherits", "sub-overrides", "slots", "value-equal", "three", "falsy")
 
 
 def build_shape(shape: str) -> tuple[list[type], dict]:
@@ -85,6 +85,17 @@ def build_shape(shape: str) -> tuple[list[type], dict]:
             __slots__ = ("__weakref__", "v")
             sig_a = Signal(E1)
             sig_b = Signal(E2)
+
+        return [C], {C: {"sig_a": E1, "sig_b": E2}}
+    if shape == "falsy":
+        class C:  # type: ignore[no-redef]
+            """an owner that is falsy (an empty container): still an instance, not the class"""
+
+            sig_a = Signal(E1)
+            sig_b = Signal(E2)
+
+            def __len__(self) -> int:
+                return 0
 
         return [C], {C: {"sig_a": E1, "sig_b": E2}}
     if shape == "value-equal":
@@ -187,7 +198,10 @@ class C11:
             subsets = [s for i, s in enumerate(subsets) if sum(s) in (0, 1, nch - 1, nch) or i % 5 == 0]
         for order in orders:
             for subs in subsets:
-                fails = await self.case(env, unit, order, subs, res)
+                try:
+                    fails = await self.case(env, unit, order, subs, res)
+                except Exception as e:  # noqa: BLE001 - using a bound signal of a valid owner must not raise
+                    fails = [("unusable", f"using the signals of shape {unit['shape']} raised {e!r}")]
                 res["cases"] += 1
                 if nch >= 2 and any(subs):
                     res["nontrivial"] += 1
@@ -315,11 +329,15 @@ class C11:
                 attrs = list(sigmap[cls])
                 if mode != "untouched":
                     sigs = [getattr(inst, a) for a in attrs]
-                    if mode == "subscribed":
-                        async with sigs[0].stream_events():
-                            pass
-                    if mode == "dispatched":
-                        sigs[0].dispatch(sigmap[cls][attrs[0]]())
+                    try:
+                        if mode == "subscribed":
+                            async with sigs[0].stream_events():
+                                pass
+                        if mode == "dispatched":
+                            sigs[0].dispatch(sigmap[cls][attrs[0]]())
+                    except Exception as e:  # noqa: BLE001
+                        res["violations"].append({"keys": ["unusable"], "fails": [["unusable", f"using a signal of a {cls.__name__} instance ({mode}) raised {e!r}"]],
+                                                  "program": {"shape": unit["shape"], "liveness": mode}, "choices": [], "trace": [], "outcome": "done"})
                     del sigs
                 del inst
                 gc.collect()
